@@ -447,6 +447,32 @@ def install_top(reg, src):
             return None
         return it.args[0]
 
+    def name_to_float_item_shape(e):
+        """{<t>.name: float(<arr>[<i>]) for <i>, <t> in enumerate(<seq>)}: returns (AST of <seq>, AST of <arr>), else None."""
+        if len(e.generators) != 1 or e.generators[0].ifs:
+            return None
+        g = e.generators[0]
+        it = g.iter
+        if not (isinstance(it, _ast.Call) and isinstance(it.func, _ast.Name) and it.func.id == "enumerate" and len(it.args) == 1
+                and not it.keywords):
+            return None
+        tg = g.target
+        if not (isinstance(tg, _ast.Tuple) and len(tg.elts) == 2 and all(isinstance(x, _ast.Name) for x in tg.elts)):
+            return None
+        i_name, t_name = tg.elts[0].id, tg.elts[1].id
+        if not (isinstance(e.key, _ast.Attribute) and e.key.attr == "name" and isinstance(e.key.value, _ast.Name)
+                and e.key.value.id == t_name):
+            return None
+        v = e.value
+        if not (isinstance(v, _ast.Call) and isinstance(v.func, _ast.Name) and v.func.id == "float" and len(v.args) == 1 and not v.keywords):
+            return None
+        sub = v.args[0]
+        if not (isinstance(sub, _ast.Subscript) and isinstance(sub.slice, _ast.Name) and sub.slice.id == i_name):
+            return None
+        if any(isinstance(n_, _ast.Name) and n_.id in (i_name, t_name) for n_ in _ast.walk(sub.value)):
+            return None
+        return it.args[0], sub.value
+
     def dict_hook(ip, e, fr, S):
         # {var.name: i for i, var in enumerate(variables)}  (any identifiers)
         txt = _ast.unparse(e)
@@ -455,12 +481,22 @@ def install_top(reg, src):
             vs = ip.ev(seq_ast, fr)
             if isinstance(vs, SSeq) and vs.tag:
                 return index_map_of_varlist(ip, vs)
-        if txt.replace(" ", "") == "{v.name:float(result.x[i])fori,vinenumerate(variables)}":
-            # values dict of solve_scipy: keys = names of the variable list, value at name V_k is x[k]
+        shp = name_to_float_item_shape(e)
+        if shp is not None:
+            # {v.name: float(<array>[i]) for i, v in enumerate(<variables>)}: keys = names of the variable list, the value at
+            # name V_k is <array>[k]
             from pyvc.values import SDict
-            ok, vs = fr.lookup("variables")
-            ok2, res = fr.lookup("result")
-            x = ip.getattr(res, "x")
+            vs = ip.ev(shp[0], fr)
+            xs_ = ip.models.as_seq(ip.ev(shp[1], fr))
+            if not (isinstance(vs, SSeq) and vs.tag):
+                raise Unsupported(f"dict comprehension {txt[:60]}")
+
+            class _X:
+                arr = None
+            x = _X()
+            x.arr = sym.fresh("values_src", sym.RealArr)
+            from .seqtheory import define_array
+            define_array(ip, x.arr, ip.models.len_term(vs.n), lambda k: real_term(xs_.get(k)), "code")
             NS = names_of_varlist(ip, vs)
             vals = sym.fresh("values_map", z3.ArraySort(sym.Name, sym.R))
             FNm = sym.fn("F_name", sym.Ref, sym.Name)
